@@ -280,12 +280,18 @@ Definition type_check_field (st : state) (i : inst) (k : key) (v : value) : verd
   | _ => (VNotSym, i)
   end.
 
-(* HashSet: KeyNotSymbol is not an error here *)
+(* HashSet (as of 01960ee): KeyNotSymbol is an error for an instance whose factory holds a definition
+   (field names are symbols); a record without definition stores any key *)
 Definition hash_set (st : state) (i : inst) (k : key) (v : value) : verdict * inst :=
   let '(vd, i') := type_check_field st i k v in
   match vd with
-  | VOk | VNotSym => (VOk, set_fields i' (fset k v (i_fields i')))
-  | _ => (vd, i')
+  | VOk => (VOk, set_fields i' (fset k v (i_fields i')))
+  | VNotSym =>
+    match re_defn (i_fac i') with
+    | Some _ => (VErr, i')
+    | None => (VOk, set_fields i' (fset k v (i_fields i')))
+    end
+  | VErr => (VErr, i')
   end.
 
 Fixpoint hash_set_all (st : state) (i : inst) (args : list (key * value)) : verdict * inst :=
@@ -710,7 +716,6 @@ Definition value_clean (st : state) (v : value) : bool :=
     end
   | _ => true
   end.
-Definition key_clean (k : key) : bool := match k with KSym _ => true | _ => false end.
 Definition typed_inst (i : inst) : bool := match re_defn (i_fac i) with Some _ => true | None => false end.
 Definition fresh_id (st : state) (id : nat) : bool :=
   match alookup id (st_store st) with None => true | Some _ => false end.
@@ -721,7 +726,7 @@ Definition clean (st : state) (o : op) : bool :=
   match o with
   | Declare _ _ => true
   | Construct id s args => fresh_id st id && forallb (fun kv => value_clean st (snd kv)) args
-  | Write r id k v => key_clean k && value_clean st v && target_typed st id
+  | Write r id k v => value_clean st v && target_typed st id
   | Nested id f g v =>
     value_clean st v &&
     match alookup id (st_store st) with
